@@ -22,13 +22,13 @@ OBLIGATIONS = [
        variants=[{'KIND': k, 'A': a, 'B': b} for k in (1, 2) for (a, b) in ((2, 2), (3, 1), (1, 3), (2, 3))] + [{'KIND': k, 'A': a} for k in (3, 4, 5) for a in (1, 2, 3)], unwind=12, timeout=600, mem_gb=10, nvec=60),
     Ob('properties_writer_vs_reference', 'C02/props_wr.c', [P + '17properties_to_oasEPKNS_8PropertyERNS_11OasisStreamERNS_10OasisStateE'], ir='ni', stubs=TOKSTUBS + [P + '4hashEPKc'], rename={'strlen': 'my_strlen1'},
        what='properties_to_oas against a reference decoder of the PROPERTY record: per property one record with the name as the reference number of the writer\'s name table (one number per distinct name), the values in order - unsigned, signed, real by value, strings as a-/b-/n-string reference by byte class to a string-table entry with exactly those bytes; composes with the reader-side PROPERTY obligations of C04',
-       bound='1 or 2 properties with 4 and 2 values (unsigned, signed != INT64_MIN, reals: any bits, strings of 2 and 1 arbitrary bytes), equal or distinct 1-character names; hash arbitrary',
+       bound='1 or 2 properties with 4 and 2 values (unsigned, signed != INT64_MIN, reals: any bits, two strings of 2 arbitrary bytes each), equal or distinct 1-character names; hash arbitrary',
        variants=[{'NP': 1, 'SAME': 0}, {'NP': 2, 'SAME': 0}, {'NP': 2, 'SAME': 1}], unwind=16, timeout=600, mem_gb=10, nvec=40),
     Ob('library_writer_references_labels', 'C02/lib_wr.c', [P + '7Library9write_oasEPKcdht'], ir='ni', stubs=TOKSTUBS + [P + '4hashEPKc', '_ZNK5gdstk7Polygon8fractureEmdRNS_5ArrayIPS0_EE', '_ZN5gdstk11convex_hullENS_5ArrayINS_4Vec2EEERS2_'], rename={'strlen': 'my_strlen1', 'llround': 'my_llround', 'exp2': 'my_exp2'},
-       defines={'MAGSYM': 0, 'REFL': 0, 'ROTK': 0, 'HASHFIX': 1},
-       what='Library::write_oas for a cell with one reference and one label, decoded by a reference decoder of the record definitions (START, CELL, PLACEMENT 17/18, TEXT, CELLNAME / TEXTSTRING tables, END): the placement names the referenced cell whether it is in the library, referenced by name, or a cell object never added to the library; magnification, angle, reflection, positions, label text / layer / type are the saved ones; the END record is well formed',
+       defines={'MAGSYM': 0, 'REFL': 0, 'ROTK': 0, 'HASHFIX': 1, 'LAB2': 0},
+       what='Library::write_oas for a cell with one reference and one label (and a second label in the referenced cell), decoded by a reference decoder of the record definitions (START, CELL, PLACEMENT 17/18, TEXT, CELLNAME / TEXTSTRING tables, END): the placement names the referenced cell whether it is in the library, referenced by name, or a cell object never added to the library; magnification, angle, reflection, positions, label text / layer / type are the saved ones; the END record is well formed',
        bound='cells with 1-character names; positions within 2^20, 32-bit text layer / type; rotation in {0, 90, 180, -90 degrees, 0.3 rad}; magnification 1 or 2.5; no compression, no standard properties',
-       variants=[{'TGT': t, 'ROTK': k, 'REFL': f, 'MAGSYM': m} for (t, k, f, m) in ((0, 0, 0, 0), (1, 1, 1, 0), (2, 2, 0, 0), (3, 3, 1, 0), (0, 4, 0, 0), (1, 0, 0, 1), (2, 1, 1, 1))],
+       variants=[{'TGT': t, 'ROTK': k, 'REFL': f, 'MAGSYM': m} for (t, k, f, m) in ((0, 0, 0, 0), (1, 1, 1, 0), (2, 2, 0, 0), (3, 3, 1, 0), (0, 4, 0, 0), (1, 0, 0, 1), (2, 1, 1, 1))] + [{'TGT': 0, 'ROTK': 1, 'REFL': 0, 'MAGSYM': 0, 'LAB2': 1}],
        unwind=14, unwindset=['_ZN5gdstk11oasis_writeEPKvmmRNS_11OasisStreamE.0:20', 'main.0:20'], flags=['--max-field-sensitivity-array-size', '110'], timeout=900, mem_gb=14, mem_est_gb=12, wrap_files=True, nvec=10),
 ]
 BOUNDS = 'single polygons with 3..5 vertices on a small integer grid; the writer and the reader are decided separately against one reference decoder'
